@@ -73,6 +73,9 @@ var branchCmd = &cobra.Command{
 			if err := client.Head.Update(client.Refs, client.RootGoitPath, renameOption); err != nil {
 				return fmt.Errorf("fail to update HEAD: %w", err)
 			}
+			if err := client.Refs.RemoveRenamedBranch(client.RootGoitPath, prevBranch); err != nil {
+				return fmt.Errorf("fail to rename branch: %w", err)
+			}
 			// log
 			if err := gLogger.WriteHEAD(log.NewRecord(log.BranchRecord, client.Head.Commit.Hash, nil, client.Conf.GetUserName(), client.Conf.GetEmail(), time.Now(), fmt.Sprintf("renamed refs/heads/%s to refs/heads/%s", prevBranch, client.Head.Reference))); err != nil {
 				return fmt.Errorf("log error: %w", err)
